@@ -69,9 +69,33 @@ def relChars : Cmp → List Char
   | .ge | .gt => ">=".toList
   | .eq => "=".toList
 
-/-- name given to row `i` (0-based). -/
-def rowName (i : Nat) (name : String) : List Char :=
-  if name.toList.isEmpty then 'c' :: natChars (i + 1) else name.toList
+/-- the `k`-th candidate for a generated name: `base`, `base_1`, `base_2`, … -/
+def candidate (base : List Char) (k : Nat) : List Char :=
+  if k = 0 then base else base ++ '_' :: natChars k
+
+/-- `while !used.insert(name) { name = format!("{}_{}", base, suffix); suffix += 1 }`:
+the first candidate from the `k`-th on that is not taken (`fuel` bounds the search; `used.length + 1`
+candidates always contain a free one). -/
+def freshName (used : List (List Char)) (base : List Char) : Nat → Nat → List Char
+  | 0, k => candidate base k
+  | fuel + 1, k => if used.contains (candidate base k) then freshName used base fuel (k + 1) else candidate base k
+
+/-- the user-given (non-empty) row names: the initial `used` set -/
+def userNames {α : Type} : List (LinRow α) → List (List Char)
+  | [] => []
+  | r :: rs => if r.name.toList.isEmpty then userNames rs else r.name.toList :: userNames rs
+
+/-- the names the export gives to the rows, in order: a user name is kept, an unnamed row `i` (0-based)
+gets the first free one of `c{i+1}`, `c{i+1}_1`, `c{i+1}_2`, … -/
+def rowNamesFrom {α : Type} (used : List (List Char)) : Nat → List (LinRow α) → List (List Char)
+  | _, [] => []
+  | i, r :: rs =>
+    if r.name.toList.isEmpty then
+      let n := freshName used ('c' :: natChars (i + 1)) (used.length + 1) 0
+      n :: rowNamesFrom (n :: used) (i + 1) rs
+    else r.name.toList :: rowNamesFrom used (i + 1) rs
+
+def rowNames {α : Type} (rows : List (LinRow α)) : List (List Char) := rowNamesFrom (userNames rows) 0 rows
 
 def objectiveLine (tok : α → List Char) (lm : LinModel α) : List Char :=
   let objective := lpTerms tok lm.objective lm.vars
@@ -82,13 +106,13 @@ def objectiveLine (tok : α → List Char) (lm : LinModel α) : List Char :=
     else objective
   " obj: ".toList ++ objective ++ ['\n']
 
-def rowLine (tok : α → List Char) (vars : List String) (i : Nat) (r : LinRow α) : List Char :=
-  [' '] ++ rowName i r.name ++ ": ".toList ++ lpTerms tok r.coeffs vars ++ [' '] ++ relChars r.cmp ++ [' ']
+def rowLine (tok : α → List Char) (vars : List String) (name : List Char) (r : LinRow α) : List Char :=
+  [' '] ++ name ++ ": ".toList ++ lpTerms tok r.coeffs vars ++ [' '] ++ relChars r.cmp ++ [' ']
     ++ lpNum tok r.rhs ++ ['\n']
 
-def rowLines (tok : α → List Char) (vars : List String) : Nat → List (LinRow α) → List Char
-  | _, [] => []
-  | i, r :: rs => rowLine tok vars i r ++ rowLines tok vars (i + 1) rs
+def rowLines (tok : α → List Char) (vars : List String) : List (List Char) → List (LinRow α) → List Char
+  | n :: ns, r :: rs => rowLine tok vars n r ++ rowLines tok vars ns rs
+  | _, _ => []
 
 def rangeLine (lo : List Char) (name : String) (hi : List Char) : List Char :=
   [' '] ++ lo ++ " <= ".toList ++ name.toList ++ " <= ".toList ++ hi
@@ -138,16 +162,11 @@ def writeLP (tok : α → List Char) (lm : LinModel α) : List Char :=
   direction lm.optType ++ ['\n']
     ++ objectiveLine tok lm
     ++ "Subject To\n".toList
-    ++ rowLines tok lm.vars 0 lm.rows
+    ++ rowLines tok lm.vars (rowNames lm.rows) lm.rows
     ++ (if !bounds.isEmpty then "Bounds\n".toList ++ linesNl bounds else [])
     ++ (if !binaries.isEmpty then "Binary\n".toList ++ ([' '] ++ joinSp binaries ++ ['\n']) else [])
     ++ (if !generals.isEmpty then "General\n".toList ++ ([' '] ++ joinSp generals ++ ['\n']) else [])
     ++ "End\n".toList
-
-/-- the names the export gives to the rows, in order. -/
-def rowNames : Nat → List (LinRow α) → List (List Char)
-  | _, [] => []
-  | i, r :: rs => rowName i r.name :: rowNames (i + 1) rs
 
 end Writer
 
@@ -578,11 +597,11 @@ def denoteRel : Cmp → Rel
   | .ge | .gt => .ge
   | .eq => .eq
 
-def denoteRows (vars : List String) : Nat → List (LinRow α) → List (LpRow α)
-  | _, [] => []
-  | i, r :: rs =>
-    { name := String.ofList (rowName i r.name), terms := denoteTerms r.coeffs vars, lhsConst := zero,
-      rel := denoteRel r.cmp, rhs := r.rhs } :: denoteRows vars (i + 1) rs
+def denoteRows (vars : List String) : List (List Char) → List (LinRow α) → List (LpRow α)
+  | n :: ns, r :: rs =>
+    { name := String.ofList n, terms := denoteTerms r.coeffs vars, lhsConst := zero,
+      rel := denoteRel r.cmp, rhs := r.rhs } :: denoteRows vars ns rs
+  | _, _ => []
 
 def denoteBounds : List (DomVar α) → List (LpBound α)
   | [] => []
@@ -601,7 +620,7 @@ def denote (lm : LinModel α) : LpProblem α :=
   { sense := match lm.optType with | .max => .max | _ => .min
     obj := denoteTerms lm.objective lm.vars
     objConst := lm.offset
-    rows := denoteRows lm.vars 0 lm.rows
+    rows := denoteRows lm.vars (rowNames lm.rows) lm.rows
     bounds := denoteBounds lm.domain
     binaries := binaryNames lm.domain
     generals := generalNames lm.domain }
